@@ -1251,11 +1251,68 @@ def prefilter(out, prop, decls, hs):
     return [d for d in decls if d.id not in skip], [h for h in hs if h.decl.id not in skip]
 
 
+def arbitrary_string_decls(tier='quick'):
+    out = []
+    der = ['Debug', 'Arbitrary']
+    lo = Bound(src='sym_len_lo()', spec='SYM_LEN_LO()', ref='sym_len_lo()', symbolic=True)
+    hi = Bound(src='sym_len_hi()', spec='SYM_LEN_HI()', ref='sym_len_hi()', symbolic=True)
+    T, L, U = Sanitizer('trim'), Sanitizer('lowercase'), Sanitizer('uppercase')
+    ne = Validator('not_empty')
+    vsets = [('ne', [ne], []), ('min', [Validator('len_char_min', lo)], ['sym_len_lo']), ('max', [Validator('len_char_max', hi)], ['sym_len_hi']),
+             ('minmax', [Validator('len_char_min', lo), Validator('len_char_max', hi)], ['sym_len_lo', 'sym_len_hi']),
+             ('ne_min', [ne, Validator('len_char_min', lo)], ['sym_len_lo']), ('min_ne', [Validator('len_char_min', lo), ne], ['sym_len_lo']),
+             ('ne_max', [ne, Validator('len_char_max', hi)], ['sym_len_hi'])]
+    for sname, sans in [('nos', []), ('tr', [T]), ('lo', [L]), ('up', [U]), ('tr_lo', [T, L]), ('up_tr', [U, T])]:
+        out.append(mk('arbs_%s_nov' % sname, 'string', 'String', sanitizers=sans, derives=der))
+        for vname, vals, names in vsets:
+            out.append(mk('arbs_%s_%s' % (sname, vname), 'string', 'String', sanitizers=sans, validators=vals, aux=names, derives=der))
+    for d in out:
+        d.verus = False
+        d.kani = True
+    return out
+
+
+def string_arbitrary_exploration(out, tier):
+    """C09 for String newtypes: NO proof (CBMC does not finish symbolic strings; Verus would need loop
+    invariants over the `arbitrary` crate).  A bounded, labelled stand-in: the real generator is run on
+    an enumerated set of byte inputs; a panic or an invalid value is reported with its bytes."""
+    from . import witness
+    decls = arbitrary_string_decls(tier)
+    explored = 0
+    nd = 0
+    import concurrent.futures
+    def one(d):
+        try:
+            return d, witness.run_witness(d)
+        except Exception as e:
+            return d, (None, repr(e))
+    # the witness crates share one cargo target dir, so builds are serialised by cargo; run 2 at a time
+    with concurrent.futures.ThreadPoolExecutor(max_workers=2) as ex:
+        results = list(ex.map(one, decls))
+    for d, (wit, log) in results:
+        if wit is None:
+            if 'error' in (log or '') and 'Arbitrary' in (log or ''):
+                continue   # combination rejected by the macro
+            out.undecided.append('%s: string Arbitrary exploration did not build: %s' % (d.id, (log or '')[-200:]))
+            continue
+        nd += 1
+        m = re.search(r'explored_string_arbitrary_inputs\":(\d+)', log or '')
+        explored += int(m.group(1)) if m else 0
+        bad = [w for w in wit if w.get('entry') == 'Arbitrary']
+        if bad:
+            out.failed.append({'key': '%s::Arbitrary::arbitrary(bounded exploration)' % d.id, 'backend': 'concrete exploration (bounded)',
+                               'message': 'the real generator panics or yields an invalid value on a concrete byte input', 'detail': json.dumps(bad[:3]),
+                               'decl': d.id, 'decl_obj': d, 'witness': bad})
+    out.bounded.append('String Arbitrary: BOUNDED concrete exploration only (%d declarations, %d generator runs over enumerated byte inputs: selector byte + up to 4 special chars, all-0x00/0xFF up to 64 bytes); not a proof, not counted as obligations' % (nd, explored))
+
+
 def kani_part(out, prop, tier, seed):
     decls, hs, extra = harnesses_for(prop, tier, seed)
     if hs:
         decls, hs = prefilter(out, prop, decls, hs)
         kani_run_harnesses(out, prop, prop, decls, hs, extra_items=extra)
+    if prop == 'C09':
+        string_arbitrary_exploration(out, tier)
 
 
 def warm():
